@@ -13,6 +13,7 @@ from vmon.bridge import build_tx, model_of_tx, script_raw_from_fields
 from vmon.core import outcome
 
 PROPERTY_ID = "C05"
+REPO_TEST_MODULES = ["test_tx", "test_taproot", "test_musig"]  # thorough tier: run as an extra workload under the contracts
 RULE = (
     "cases = (transaction state, input index, algorithm, hash type) digest queries, issued inside histories of up to 6 "
     "steps that interleave queries with edits of the same Tx object; each query is decided by a contract that "
